@@ -908,42 +908,77 @@ func c04ParseFile(c *Ctx) {
 	}
 	ob := c.Ob("C04.R7", "ParseFile", fd.Pos())
 	path := soleParam(c, fd)
-	good := len(fd.Body.List) == 3
-	var data, errV types.Object
-	if good {
-		as, ok := fd.Body.List[0].(*ast.AssignStmt)
-		good = ok && len(as.Lhs) == 2 && len(as.Rhs) == 1
-		if good {
-			call, ok := unparen(as.Rhs[0]).(*ast.CallExpr)
-			good = ok && c.calleeFull(call) == "os.ReadFile" && len(call.Args) == 1 && c.obj(call.Args[0]) == path
-			data, errV = c.obj(as.Lhs[0]), c.obj(as.Lhs[1])
+	x := c.NewSX()
+	x.NoInline["ParseObject"] = true
+	paths := x.Run(fd)
+	good := len(paths) > 0
+	nOK, nErr := 0, 0
+	for _, p := range paths {
+		if p.Why != "" || p.End != "return" || len(p.Vals) != 2 {
+			good = false
+			break
 		}
-	}
-	if good {
-		is, ok := fd.Body.List[1].(*ast.IfStmt)
-		good = ok && is.Else == nil
-		if good {
-			be, ok := unparen(is.Cond).(*ast.BinaryExpr)
-			r := singleReturn(is.Body)
-			good = ok && be.Op == token.NEQ && c.obj(be.X) == errV && c.isNil(be.Y) && r != nil && len(r.Results) == 2 && c.isNil(r.Results[0]) && c.obj(r.Results[1]) == errV
-		}
-	}
-	if good {
-		r, ok := fd.Body.List[2].(*ast.ReturnStmt)
-		good = ok && len(r.Results) == 1
-		if good {
-			call, ok := unparen(r.Results[0]).(*ast.CallExpr)
-			good = ok && c.callee(call) != nil && c.callee(call).Name() == "ParseObject" && len(call.Args) == 1
-			if good {
-				conv, ok := unparen(call.Args[0]).(*ast.CallExpr)
-				good = ok && len(conv.Args) == 1 && c.obj(conv.Args[0]) == data
-				if good {
-					tv, ok := c.Info.Types[conv.Fun]
-					good = ok && tv.IsType() && types.Identical(tv.Type, types.Typ[types.String])
-				}
+		// the only effect: one os.ReadFile(path) (the hand-over to ParseObject is the returned call)
+		var read *TCall
+		for _, st := range p.Effects() {
+			switch {
+			case st.Kind == "call" && st.Call != nil && st.Call.Fun != nil && st.Call.Fun.FullName() == "os.ReadFile" && read == nil && len(st.Call.Args) == 1 && isParamTerm(st.Call.Args[0], path):
+				read = st.Call
+			case st.Kind == "call" && st.Call != nil && st.Call.Fun != nil && st.Call.Fun.Name() == "ParseObject" && st.Call.Fun.Pkg() == c.Types:
+			default:
+				good = false
 			}
 		}
+		if read == nil || !good {
+			good = false
+			break
+		}
+		data, rerr := Term(TProj{*read, 0}), Term(TProj{*read, 1})
+		// the decision on this path: the read error is nil or not; nothing else is decided
+		failed, decided := false, false
+		for _, cd := range p.Conds() {
+			b, ok := cd.T.(TBin)
+			var other Term
+			if ok && sameTerm(b.X, rerr) {
+				other = b.Y
+			} else if ok && sameTerm(b.Y, rerr) {
+				other = b.X
+			}
+			if _, isNil := other.(TNil); !ok || !isNil || (b.Op != token.NEQ && b.Op != token.EQL) {
+				good = false
+				break
+			}
+			failed, decided = (b.Op == token.NEQ) == cd.Truth, true
+		}
+		if !decided || !good {
+			good = false
+			break
+		}
+		if failed {
+			_, nilRes := p.Vals[0].(TNil)
+			good = nilRes && sameTerm(p.Vals[1], rerr)
+			nErr++
+		} else {
+			want := func(k int) bool {
+				pr, ok := p.Vals[k].(TProj)
+				if !ok || pr.K != k {
+					return false
+				}
+				call, ok := pr.X.(TCall)
+				if !ok || call.Fun == nil || call.Fun.Name() != "ParseObject" || call.Fun.Pkg() != c.Types || len(call.Args) != 1 {
+					return false
+				}
+				cv, ok := call.Args[0].(TConv)
+				return ok && isStringType(cv.To) && sameTerm(cv.X, data)
+			}
+			good = want(0) && want(1)
+			nOK++
+		}
+		if !good {
+			break
+		}
 	}
+	good = good && nOK >= 1 && nErr >= 1
 	ob.Check(good, "data, err := os.ReadFile(path); err => (nil, err); return ParseObject(string(data)) — the file's bytes unmodified", "ParseFile is not os.ReadFile followed by ParseObject on the unmodified bytes (text before the root bracket and line numbers would differ)")
 }
 
